@@ -680,6 +680,15 @@ func (g *G) Query(seeds []string) string {
 	if g.R.Chance(1, 25) {
 		return g.leading()
 	}
+	if g.R.Chance(1, 30) {
+		// a byte order mark (or another invisible rune) in front: it is part of the text
+		g.count("invisible-prefix")
+		return g.R.Pick([]string{"\ufeff", "\ufeff", "\u200b", "\u00a0", "\ufeff\n"}) + g.queryBody(seeds)
+	}
+	return g.queryBody(seeds)
+}
+
+func (g *G) queryBody(seeds []string) string {
 	switch x := g.R.Intn(20); {
 	case x < 6:
 		return g.Skeleton()
